@@ -1355,6 +1355,40 @@ class IsStructSeqClassPy(IsNamedTupleClassPy):
         return [('result-is-the-struct-sequence-class-predicate', eng.truth(st, ret) == SS(z3.Const('cls', Ref)))]
 
 
+# ---- C18: the delegating twins is_namedtuple / is_namedtuple_instance / is_structseq / is_structseq_instance: the class predicate
+# (used through its proved contract NT / SS - whichever implementation the module-level name is bound to satisfies it) applied to
+# the object itself if it is a type, else to its type / always to its type.
+
+def _delegating(function, pred, callee, instance_only, parent):
+    class _D(parent):
+        def setup(self, eng, st, fn):
+            super().setup(eng, st, fn)
+            st.env.vars.pop('cls', None)
+            st.env.vars['obj'] = z3.Const('obj', Ref)
+
+        def call(self, eng, st, f, args, kwargs, n, stars):
+            if isinstance(f, FuncV) and f.name == callee:
+                return [(st, pred(args[0]))]
+            return super().call(eng, st, f, args, kwargs, n, stars)
+
+        def post(self, eng, st, entry, ret):
+            o = z3.Const('obj', Ref)
+            C = py_type_of(o) if instance_only else z3.If(nt_is_type(o), o, py_type_of(o))
+            return [('result-is-the-class-predicate-of-' + ('the-type-of-the-object' if instance_only else 'the-object-if-a-type-else-of-its-type'),
+                     eng.truth(st, ret) == pred(C))]
+    _D.function = function
+    _D.__name__ = 'Delegating_' + function
+    _D.__qualname__ = _D.__name__
+    _D.__doc__ = f'typing.{function}(obj): {callee} of ' + ('type(obj)' if instance_only else 'obj if it is a type, else of type(obj)')
+    return pycontract(_D)
+
+
+IsNamedTuplePy = _delegating('is_namedtuple', NT, 'is_namedtuple_class', False, IsNamedTupleClassPy)
+IsNamedTupleInstancePy = _delegating('is_namedtuple_instance', NT, 'is_namedtuple_class', True, IsNamedTupleClassPy)
+IsStructSeqPy = _delegating('is_structseq', SS, 'is_structseq_class', False, IsStructSeqClassPy)
+IsStructSeqInstancePy = _delegating('is_structseq_instance', SS, 'is_structseq_class', True, IsStructSeqClassPy)
+
+
 # ======================================================================================================================
 # C18 / C02: utils.total_order_sorted - the Python twin of the engine's TotalOrderSort (ocv/contracts/sorting.py), against
 # the same three-stage specification over abstract list contents
